@@ -123,7 +123,7 @@ def run(rep):
                                   {'correspondence': 'impl<->M_py (C02 projection)', 'type': c['type'], 'ops': c['ops']}, found_input=False)
         # specification machines on their classes
         cl = m.classes()
-        for label, runm, want in (('sequence machine', m.run_seq, ('seq', 'noopt')), ('bag machine', m.run_bag, ('bag',))):
+        for label, runm, want in (('sequence machine', m.run_seq, ('seq', 'noopt')), ('bag machine', m.run_bag, ('bag',)), ('choice machine', m.run_cho, ('choice',))):
             sub = [c for c in cases if cl.get(c['type']) in want]
             so = runm(sub)
             si = [io[i] for i, c in enumerate(cases) if cl.get(c['type']) in want]
